@@ -18,6 +18,7 @@ import (
 	"time"
 
 	"verifsim/core"
+	"verifsim/model"
 	"verifsim/rt"
 	"verifsim/work"
 )
@@ -53,33 +54,52 @@ type Result struct {
 var bitmapBits uint64 = 1 << 26
 
 var (
-	fW        = flag.String("w", "", "workload name")
-	fSeed     = flag.Uint64("seed", 1, "base seed (VERIF_SEED)")
-	fStart    = flag.Uint64("start", 0, "first run index")
-	fCount    = flag.Uint64("count", 1, "number of runs")
-	fStride   = flag.Uint64("stride", 1, "index stride (worker k of n runs start+k, start+k+n, ...)")
-	fTier     = flag.String("tier", "quick", "quick|thorough")
-	fOut      = flag.String("out", "", "output directory")
-	fID       = flag.String("id", "0", "worker id (file names)")
-	fVariant  = flag.String("variant", "plain", "build variant name")
-	fInstr    = flag.Bool("instr", false, "binary was built with the statement-yield overlay")
-	fWide     = flag.Bool("wide", false, "the overlay also instruments every file under primitives/")
-	fTags     = flag.String("tags", "", "build tags used (recorded in replay files)")
-	fReplay   = flag.String("replay", "", "replay file: execute its tape once and print the violations as JSON")
-	fNoShrink = flag.Bool("noshrink", false, "do not minimise failing tapes in-process")
-	fDeadline = flag.Float64("deadline", 0, "stop starting new runs after this many seconds (0 = none)")
-	fFPList   = flag.String("fplist", "", "write 'index fingerprint' lines to this file (determinism self-test)")
-	fRaceLog  = flag.String("racelog", "", "race detector log_path prefix (the runtime appends .<pid>)")
-	fMaxViol  = flag.Int("maxviol", 3, "stop collecting after this many distinct violations")
-	fDumpTape = flag.Bool("dumptape", false, "execute run -start once and print the tape it consumed as JSON")
-	fBmBits   = flag.Uint("bitmapbits", 26, "log2 of the distinct-fingerprint bitmap size")
-	fList     = flag.Bool("list", false, "list workloads")
-	fDescribe = flag.String("describe", "", "print the evidence description of a workload as JSON")
-	fVerbose  = flag.Bool("v", false, "with -replay: print the trace")
+	fW          = flag.String("w", "", "workload name")
+	fSeed       = flag.Uint64("seed", 1, "base seed (VERIF_SEED)")
+	fStart      = flag.Uint64("start", 0, "first run index")
+	fCount      = flag.Uint64("count", 1, "number of runs")
+	fStride     = flag.Uint64("stride", 1, "index stride (worker k of n runs start+k, start+k+n, ...)")
+	fTier       = flag.String("tier", "quick", "quick|thorough")
+	fOut        = flag.String("out", "", "output directory")
+	fID         = flag.String("id", "0", "worker id (file names)")
+	fVariant    = flag.String("variant", "plain", "build variant name")
+	fInstr      = flag.Bool("instr", false, "binary was built with the statement-yield overlay")
+	fWide       = flag.Bool("wide", false, "the overlay also instruments every file under primitives/")
+	fTags       = flag.String("tags", "", "build tags used (recorded in replay files)")
+	fReplay     = flag.String("replay", "", "replay file: execute its tape once and print the violations as JSON")
+	fNoShrink   = flag.Bool("noshrink", false, "do not minimise failing tapes in-process")
+	fDeadline   = flag.Float64("deadline", 0, "stop starting new runs after this many seconds (0 = none)")
+	fFPList     = flag.String("fplist", "", "write 'index fingerprint' lines to this file (determinism self-test)")
+	fRaceLog    = flag.String("racelog", "", "race detector log_path prefix (the runtime appends .<pid>)")
+	fMaxViol    = flag.Int("maxviol", 3, "stop collecting after this many distinct violations")
+	fDumpTape   = flag.Bool("dumptape", false, "execute run -start once and print the tape it consumed as JSON")
+	fBmBits     = flag.Uint("bitmapbits", 26, "log2 of the distinct-fingerprint bitmap size")
+	fSelfModels = flag.Bool("selftest-models", false, "run the known-answer tests of the reference models")
+	fList       = flag.Bool("list", false, "list workloads")
+	fDescribe   = flag.String("describe", "", "print the evidence description of a workload as JSON")
+	fVerbose    = flag.Bool("v", false, "with -replay: print the trace")
 )
 
 func main() {
 	flag.Parse()
+	if *fSelfModels {
+		fail := 0
+		for _, t := range []struct {
+			name string
+			f    func() error
+		}{{"LRU sequential model", model.LRUSelfTest}, {"Keccak-f / STROBE-128 / Merlin model (SHA3-256, SHAKE128, two upstream Merlin vectors)", model.SelfTestMerlin}, {"ECVRF RFC 9381 model (Appendix B.3 vectors, draft-10 vectors, hand-made rejections)", model.SelfTestECVRF}} {
+			if err := t.f(); err != nil {
+				fmt.Printf("FAIL %s: %v\n", t.name, err)
+				fail++
+			} else {
+				fmt.Printf("ok   %s\n", t.name)
+			}
+		}
+		if fail > 0 {
+			os.Exit(2)
+		}
+		return
+	}
 	bitmapBits = 1 << *fBmBits
 	if *fList {
 		for _, n := range work.Names() {
